@@ -103,7 +103,7 @@ def jobs(tier, seed=0):
     cap = 50000 if quick else 400000
     LIM = 2
 
-    budget = 150 if quick else 420      # no single exploration may run away (it is then recorded as not exhaustive)
+    budget = 150 if quick else 300      # no single exploration may run away (it is then recorded as not exhaustive)
 
     heavy = ("2x2 cover w", "joint", "1->3", "3->1 w", "Crossbar 2x2", "3x3", "3x2", "2x3")
     PRIO = {}
